@@ -248,7 +248,7 @@ def model_check(chk, tier):
                 ("1proc_nested", mc_consts(1, 3, 2, 2, "MCCompsNested"))]
     else:
         cfgs = [("2proc_flat", mc_consts(2, 2, 1, 3, "MCCompsFlat")),
-                ("1proc_nested", mc_consts(1, 3, 3, 3, "MCCompsNested")),
+                ("1proc_nested", mc_consts(1, 3, 3, 2, "MCCompsNested")),
                 ("1proc_flat_deep", mc_consts(1, 2, 3, 3, "MCCompsFlat", max_d=2))]
     for name, c in cfgs:
         cfg = tlc.write_cfg(wd / f"{name}.cfg", constants=c, invariants=INVS, properties=["ValueStable"])
@@ -345,7 +345,7 @@ def run(tier, seed, replay=None):
     for i, p in enumerate(chosen):
         execute(p, "model", TICKS[i % len(TICKS)], nest=(i % 2 == 1))
         chk.replays += 1
-    n_rand = 1500 if tier == "quick" else 30000
+    n_rand = 1500 if tier == "quick" else 12000
     made = 0
     while made < n_rand:
         p = random_prog(rng)
